@@ -71,6 +71,7 @@ def minimise(base, run, cls):
 def run(batch, n_runs):
     base = base_dir()
     C.warm_dir(base)
+    C.stale_grammar_dir(base)
     for o in C.ORDERS:
         C.reference(base, o)        # computed once in the parent, inherited by the forked workers
     seed = batch.seed
